@@ -287,7 +287,11 @@ def judge(cid, r, env, g, vec, order, data, checks, res):
         if ebs != exp:
             _fail(res, "ebs", env, g, None, "C++ %s::encoded_byte_size = %d, layout rules give %d"
                   % (env.name(len(env.defs)), ebs, exp), type=env.name(len(env.defs)))
-    if "print" in checks and order == "L":
+    if "print" in checks and order == "L" and r["vechex"].replace("-", "") != data.hex():
+        # the object is not the value of the walk: the codec does not reproduce the image it decoded (C03's
+        # business - the known optional-padding finding does this); its text is nobody's obligation
+        _n(res, "print_not_judged_decode_differs")
+    elif "print" in checks and order == "L":
         _n(res, "print")
         got = bytes.fromhex(r["print"].replace("-", "")).decode("latin-1")
         if got != vec["text"]:
